@@ -1,0 +1,19 @@
+//go:build verif
+
+// Machine-checked contracts (read by /verif/bin/fsv; comment-only, guarded by the verif tag).
+
+package util
+
+// AppliesToAny: any-match over the configured predicates (predicates are pure: see assumptions).
+//@ func AppliesToAny
+//@   purecalls
+//@   loop 0 invariant -1 <= rangeindex && rangeindex < len(biPredicates) && (forall j int :: 0 <= j && j <= rangeindex ==> !appb(biPredicates[j], value1, value2))
+//@   loop 0 decreases len(biPredicates) - rangeindex
+//@   requires forall j int :: 0 <= j && j < len(biPredicates) ==> biPredicates[j] != nil
+//@   ensures [C12.anymatch] result == (exists j int :: 0 <= j && j < len(biPredicates) && appb(biPredicates[j], value1, value2))
+//@   modifies nothing
+
+//@ func RoundDown
+//@   requires interval > 0 && input >= 0
+//@   ensures [C05.rounddown] result == input - emod(input, interval)
+//@   modifies nothing
